@@ -1,5 +1,14 @@
 //@ unit u_graph
 //@ rlimit 400
+// add_edge is verified by cases on (directed, multi_edges): one Verus run per case checks the real body against the
+// full contract under the extra precondition of that case (one joint query needs > 100 s and is unstable, each case
+// needs about 10 s); the main run checks every other function against add_edge's contract, and lemma_add_edge_cases_cover
+// shows that the four cases are exhaustive.
+//@ variants main dm ds um us
+//@ variant-args dm --verify-root --verify-function Graph::add_edge
+//@ variant-args ds --verify-root --verify-function Graph::add_edge
+//@ variant-args um --verify-root --verify-function Graph::add_edge
+//@ variant-args us --verify-root --verify-function Graph::add_edge
 #![allow(unused_imports)]
 use vstd::prelude::*;
 use vstd::std_specs::cmp::*;
@@ -301,6 +310,10 @@ for node_name in it: node_names
 //@ end
 
 //@ extract fn src/graph/creation.rs add_edge props=C01,C02,C03,C20 ty=Graph
+//@ if main
+//@ head
+    #[verifier::external_body] // proved-by-cases: the body is verified in the variants dm, ds, um, us of this unit
+//@ fi
 //@ rewrite
 -> Result<(), Error>
 //@ with
@@ -309,6 +322,18 @@ for node_name in it: node_names
     requires
         old(self).wf_nodes(),
         old(self).wf_estore(),
+//@ if dm
+        add_edge_case(*old(self), true, true),
+//@ fi
+//@ if ds
+        add_edge_case(*old(self), true, false),
+//@ fi
+//@ if um
+        add_edge_case(*old(self), false, true),
+//@ fi
+//@ if us
+        add_edge_case(*old(self), false, false),
+//@ fi
     ensures
         // [C01.add_edge.outcome]
         ae_outcome(*old(self), *edge, *final(self), r),
